@@ -386,3 +386,26 @@ def r9_backup_is_written_afresh(ck, rule="C08-R9"):
             elif rp in ("std::fs::File::options", "std::fs::File::open"):
                 pass
     ck.floor(rule, "places where a backup file is opened for writing", n, 1)
+    # ... and it is written every time: no way through save_backup_file to a normal return goes round the write (an early "it is there
+    # already, keep it" return keeps the state between two sections of one patch, or the file of an earlier push)
+    OPENERS = ("std::fs::File::create", "std::fs::File::create_new", "std::fs::write", "std::fs::OpenOptions::open")
+    def opens(fn_, depth=3):
+        if any((callee_of(t_).get("rpath") or "") in OPENERS and not fn_.blocks[b_]["cleanup"] for b_, t_ in fn_.calls()):
+            return True
+        return depth > 0 and any(opens(c_, depth - 1) for c_ in prog.closures_of(fn_))
+    write_bbs = set()
+    for bb, t in sb.calls():
+        if sb.blocks[bb]["cleanup"]:
+            continue
+        if (callee_of(t).get("rpath") or "") in OPENERS:
+            write_bbs.add(bb)
+        for a in t["args"]:
+            e = df.operand_expr(sb, a)
+            if isinstance(e, tuple) and e and e[0] == "closure" and e[1] in prog.fns and opens(prog.fns[e[1]]):
+                write_bbs.add(bb)
+    from .c05 import _is_error_exit
+    ok = bool(write_bbs) and all(cfg.must_pass(sb, 0, ex, write_bbs, after_src=False) or _is_error_exit(sb, 0, ex, write_bbs) for ex in cfg.exits(sb))
+    ck.require(ok, rule, "save_backup_file writes the backup on every path that returns normally",
+               "save_backup_file can return Ok without having opened the backup file for writing: a backup that is there already (the state "
+               "between two sections of one patch - written first because backups are taken while undoing, newest first - or the file of an "
+               "earlier push) is kept in place of the state before the patch", sb.where(), ok_detail="no normal return goes round the write")
